@@ -220,6 +220,13 @@ def c05_project(op, a):
         return "err"
     return a
 
+def bytes_witness(op, a, b):
+    """the property fixes the exact OUTPUT BYTES (CRC frame = encoding ++ checksum; stacked flavours = composed
+    transformations; fixint = the integer's LE / BE bytes) and the model's answer is that specification (theorems
+    crc_frame, crc_then_cobs, fixint_le / _be): an input on which both sides produce bytes and the bytes differ is a
+    failing input, not just a broken correspondence"""
+    return a.startswith("ok x") and b.startswith("ok x")
+
 def c20_project(op, a):
     """`rec`: the property lets the encoder choose between push and extend ("through whichever of its push/extend
     methods the encoder chooses"), so only the concatenated payload, in order, is compared - not the call structure
@@ -314,7 +321,7 @@ PROPS = {
         "gens": ["C10"],
         "rule": "(for the two 32-bit algorithms the crate-root wrappers to_slice_crc32 / to_vec_crc32 / to_stdvec_crc32 / to_allocvec_crc32 / from_bytes_crc32 / take_from_bytes_crc32 are cross-checked against the flavour-level entry points in every crcser / crcde op; long str/bytes bodies 15..300 bytes with truncations and tail bit flips); `crcraw` (crc crate vs the Rocksoft bitwise model, 10 catalogue algorithms, widths 8/12/16/32/64/82), `crcser` (to_slice/to_vec/to_allocvec agree; frame = plain ++ LE checksum), `crcde` (valid, extended, every truncation, random damage), `crcdex`: per sampled frame EVERY single-bit flip of the frame and burst patterns <= width at every bit offset of the payload in the algorithm's own bit order must not be accepted with unchanged decoded length; non-trivial = distinct op line",
         "nontrivial": lambda op, a: True,
-        "diff_is_witness": False,
+        "diff_is_witness": bytes_witness,
         "trusted_base": COMMON_TB + [SERDE_TB, "the crc 3.4 crate is MODELLED as the Rocksoft parametric bitwise algorithm (pinned to crc-catalog check values by kernel-evaluated examples, compared with the crate each run)", "the de CrcModifier is modelled method by method (Model/CrcDe.lean) and PROVED equal to the derived list-level model (takeFromBytesCrcG_eq); crc::Digest::update over a slice = byte by byte is MODELLED"],
         "assumptions": ["bursts are contiguous in the algorithm's own bit order (LSB-first within bytes when refin) (DESIGN §8)"],
     },
@@ -373,7 +380,7 @@ PROPS = {
         "gens": ["C13"],
         "rule": "a TRANSIENT reader fault at every offset inside every fixint (from_io / from_eio with ample scratch must fail, never assemble a value around the gap); every `fix` case also goes through to_slice / to_vec / to_io / serialized_size and from_bytes / from_io / from_eio with an EMPTY scratch buffer (whole and 1-byte reads) / COBS / CRC; `fix <le|be> <type> <int>`: a struct field with #[serde(with = postcard::fixint::le|be)] for all 8 types x 2 orders: boundary sets, every single-byte-nonzero pattern, random values, u16/i16 strided (entire domain in thorough); oracle: bytes = to_le_bytes/to_be_bytes, decodes back with the remainder intact; non-trivial = distinct op line",
         "nontrivial": lambda op, a: True,
-        "diff_is_witness": False,
+        "diff_is_witness": bytes_witness,
         "exhaustive": {"quick": [], "thorough": ["u16 and i16, both byte orders"]},
         "trusted_base": COMMON_TB + [SERDE_TB, "serde's [u8; N] impl (tuple of N u8) and #[serde(with)] plumbing MODELLED"],
         "assumptions": [],
@@ -393,7 +400,7 @@ PROPS = {
         "project": c20_project,
         "rule": "every encode entry point is handed a value that can be serialised only ONCE; block-boundary values (zero-free runs of 249..256 / 503..510 bytes, bodies of 13..129 bytes around powers of two) through `cobsval` and every stack; `stack crccobs <storage> <cap> <alg> <type> <value>`: serialize_with_flavor(v, CrcModifier::new(Cobs::try_new(storage)?, digest)) for storage in {growable, slice between canaries, heapless} x 4 CRC widths, ample and too-small capacity; harness oracle: output = COBS frame of (plain ++ LE checksum) computed independently, reference-COBS-decoding then CRC-checked decoding recovers the value; `rec override|default <value>`: a recording user flavour with and without a try_extend override (call log compared with emit v / byte-wise pushes; payloads concatenate to the plain encoding); plus the single-layer stacks via `sercap`; non-trivial = distinct op line",
         "nontrivial": lambda op, a: True,
-        "diff_is_witness": False,
+        "diff_is_witness": bytes_witness,
         "trusted_base": COMMON_TB + [SERDE_TB, "cobs and crc crates MODELLED (see C06, C10)"],
         "assumptions": ["CrcModifier has no IndexMut, so COBS-inside-CRC is the only two-modifier stack the crate admits"],
     },
